@@ -20,6 +20,9 @@ B(b) == IF b THEN 1 ELSE 0
 
 Cases(u) == {[kind |-> "member", bt |-> bt, ths |-> ths, x |-> x, c1 |-> Zero, c2 |-> Zero] :
                bt \in BinTypes, ths \in {t \in ThLists : NonDecreasing(t)}, x \in Values}
+       \* one event per threshold for the one-sided types, in the order the thresholds are given (any order)
+       \cup {[kind |-> "member", bt |-> bt, ths |-> ths, x |-> x, c1 |-> Zero, c2 |-> Zero] :
+               bt \in BinTypes \ WithinTypes, ths \in {t \in ThLists : ~NonDecreasing(t)}, x \in Values}
        \cup {[kind |-> "prob", bt |-> bt, ths |-> <<Zero, One>>, x |-> Zero, c1 |-> a, c2 |-> b] :
                bt \in BinTypes, a \in CdfVals, b \in {y \in CdfVals : TRUE}}
 
